@@ -8,7 +8,7 @@
     which are not modelled); a result containing [TNonAscii] is 'out of the model's
     domain'. *)
 From Coq Require Import NArith List Bool.
-From Snel Require Import Base.Bytes.
+From Snel Require Import Base.Bytes Gen.Params.
 Import ListNotations.
 Open Scope N_scope.
 
@@ -16,7 +16,7 @@ Inductive token :=
 | TWord (w : bytes)          (* Token::Word *)
 | TNum (raw : bytes)         (* Token::Number; the model keeps the scanned text, not the f64 *)
 | TStr (s : bytes)           (* Token::StringLiteral, escapes resolved *)
-| TSym (c : N)               (* Token::Symbol: one of : , = > < ! . *)
+| TSym (c : N)               (* Token::Symbol: one of Params.tokenizer_symbol_chars *)
 | TLBrace | TRBrace | TSemi | TLSq | TRSq | TLPar | TRPar
 | TInvalid                   (* Token::Word('<INVALID>') *)
 | TNonAscii.                 (* byte >= 128 outside a string literal: not modelled *)
@@ -39,9 +39,9 @@ Definition is_tws (c : N) : bool := (c =? 32) || (c =? 9) || (c =? 10) || (c =? 
 Definition is_numchar (c : N) : bool := is_digit c || (c =? 46) || (c =? 45).
 (** [parse_word]: alphanumeric, '_' or '-'. *)
 Definition is_wordchar (c : N) : bool := is_alnum c || (c =? 95) || (c =? 45).
-(** [Token::Symbol] characters. *)
-Definition is_symchar (c : N) : bool :=
-  (c =? 58) || (c =? 44) || (c =? 61) || (c =? 62) || (c =? 60) || (c =? 33) || (c =? 46).
+(** [Token::Symbol] characters: the arm of the tokenizer's match is read from the Rust text
+    (tools/params/p32_tokenizer_symbols.py; ':' ',' '=' '>' '<' '!' '.' and, since b3737c8, '+'). *)
+Definition is_symchar (c : N) : bool := existsb (N.eqb c) tokenizer_symbol_chars.
 
 Definition unescape (e : N) : N :=
   if e =? 110 then 10 else if e =? 116 then 9 else if e =? 114 then 13 else e.
